@@ -257,7 +257,7 @@ package queue
 //@   axiom i > 0 ==> result == kept(s, f, i-1) + ite(f(s[i-1]), 1, 0)
 
 // Filter's critical section: the queue becomes the order-preserving subsequence of accepted tasks.
-//@ func (*TaskQueue).Filter$1
+//@ func (*TaskQueue).Filter$[filterFn,q]
 //@   prop C05
 //@   requires NoNil(q.items)
 //@   modifies q.items, nMut
@@ -285,7 +285,7 @@ package queue
 // With p = position of the handled task t (first task with its id), S = (Status == Success):
 //   items' = Head ++ old[0..p) ++ (S ? [] : [t]) ++ After ++ old(p..n) ++ Tail      (p >= 0)
 //   items' = Head ++ old ++ Tail                                                      (t no longer queued)
-//@ func (*TaskQueue).Start$1$1
+//@ func (*TaskQueue).Start$[q,t,taskRes]
 //@   prop C05, C04
 //@   requires [only-success-or-keep] taskRes.Status == Success || taskRes.Status == Keep
 //@   requires q != nil && t != nil && NoNil(q.items)
@@ -396,7 +396,7 @@ package queue
 // C03: one handler activation at a time, on the head task; C04: a failed task stays where it is
 // and the next wait is the back-off delay; C17: once the context is seen done the worker never
 // reaches the handler again.
-//@ func (*TaskQueue).Start$1
+//@ func (*TaskQueue).Start$[q]
 //@   prop C03, C04, C17
 //@   requires q != nil && q.ctx != nil && q.Handler != nil && q.ExponentialBackoffFn != nil && !ctxdone() && lastStatus != Fail && lastStatus != Repeat
 //@   modifies q.items, q.measureActionFn, q.Status, q.waitInProgress, q.cancelDelay, lastWaited, lastHandled, lastStatus, lastDelayBefore, lastBackoff, nMutAtHandler, allelems(task.Task), nMut
